@@ -1194,6 +1194,16 @@ private:
     // This should always be the latest data member!!!
     StylesheetExecutionContextDefault*      m_stylesheetExecutionContext;
 
+#if defined(APACHE_XALAN_C_VERIF)
+public:
+
+    // Verification hook:  see StylesheetExecutionContextDefault::verifSnapshot().
+    void
+    verifSnapshot(XalanVector<XalanSize_t>&     theSizes) const;
+
+private:
+#endif
+
     static const XSLTInputSource*           s_emptyInputSource;
 
     static const XSLTInit*                  s_xsltInit;
